@@ -34,10 +34,11 @@ PairW(k, nw) == LET a == ((7 * k) % nw) + 1
                     b == IF b0 = a THEN (a % nw) + 1 ELSE b0
                 IN [kind |-> "pair", cols |-> <<<<a, 1 + (k % 3)>>, <<b, 1 + (k % 2)>>>>, scale |-> DL(1, -1), cls |-> "physical"]
 DenseCols(k, nw) == LET w(i) == ((i * (k + 1)) % 4) + (k % 2)
-                    IN SelectSeq([i \in 1..nw |-> <<i, w(i)>>], LAMBDA c : c[2] > 0)
+                    IN TLCEval(SelectSeq([i \in 1..nw |-> <<i, w(i)>>], LAMBDA c : c[2] > 0))
 DenseW(k, nw) == [kind |-> "dense", cols |-> DenseCols(k, nw), scale |-> DL(1, -2), cls |-> "physical"]
-\* the same dense vectors at scale 1 (loadings of 10^3..10^4 mmol/g, far outside any measurement)
-LargeW(k, nw) == [kind |-> "dense", cols |-> DenseCols(k, nw), scale |-> DInt(1), cls |-> "large"]
+\* the same dense vectors at scale 10 (loadings of 10^4..10^5 mmol/g, three orders of magnitude beyond any measurement;
+\* "physical" vectors give loadings below 100 mmol/g)
+LargeW(k, nw) == [kind |-> "dense", cols |-> DenseCols(k, nw), scale |-> DInt(10), cls |-> "large"]
 NPairs(nw) == IF nw >= 30 THEN 30 ELSE 3
 NDense(nw) == IF nw >= 30 THEN 10 ELSE 2
 NLarge(nw) == IF nw >= 30 THEN 2 ELSE 0
@@ -55,12 +56,14 @@ Orders == <<0, 1, 2, 3>>
 
 \* scenario k (1-based) of a kernel with nw widths / nr rows, rotation r (the seed): weight vector k with a
 \* (grid, limits, order) combination chosen so that all 64 combinations occur
-Scenario(k, nw, nr, r) ==
+\* (W = the evaluated Weights(nw): callers pass TLCEval(Weights(nw)) so that it is built once)
+Scenario(k, W, nr, r) ==
    LET c == (k + r) % 64
-   IN [id |-> k, w |-> Weights(nw)[k], grid |-> Grids(nr)[(c % 4) + 1], limits |-> LimitKinds[((c \div 4) % 4) + 1],
+   IN [id |-> k, w |-> W[k], grid |-> Grids(nr)[(c % 4) + 1],
+       limits |-> IF W[k].cls = "large" THEN "none" ELSE LimitKinds[((c \div 4) % 4) + 1],   \* large: whole isotherm
        order |-> Orders[((c \div 16) % 4) + 1]]
 NScen(nw) == Len(Weights(nw))
-Scenarios(nw, nr, r) == [k \in 1..NScen(nw) |-> Scenario(k, nw, nr, r)]
+Scenarios(nw, nr, r) == LET W == TLCEval(Weights(nw)) IN [k \in 1..Len(W) |-> Scenario(k, W, nr, r)]
 
 ---------------------------------------------------------------------------
 \* Observations of one call: [w, dist, cum, kl : sequences; lim : <<min, max>> 0-based positions]
@@ -112,7 +115,8 @@ SameOut(a, b) == SameSeq(a.w, b.w) /\ SameSeq(a.dist, b.dist) /\ SameSeq(a.cum, 
 
 \* q: [p, load : fed isotherm; lim : <<lo, hi>>; order; wk : kernel widths; K : sparse kernel rows on the window;
 \*     o0 : observation with order 0; ok : observation with q.order; op : observation (order q.order) of the isotherm
-\*     whose loadings outside the window were changed (load2); same : TRUE when order = 0 (ok = o0)]
+\*     whose loadings outside the window were changed (load2); useK : FALSE when the pressures are not kernel rows
+\*     (then K is empty and the kernel-weighted-sum clause is not evaluated)]
 Judge(q) ==
    LET win == Window(q.p, q.lim)
        n == Cardinality(win)
@@ -129,9 +133,9 @@ Judge(q) ==
        nonneg |-> NonNeg(q.o0) /\ NonNeg(q.ok),
        cum_mono |-> CumMono(q.o0) /\ CumMono(q.ok),
        cum_integral |-> goodRules(q.o0) # {} /\ goodRules(q.ok) # {},
-       widths |-> SameSeq(q.o0.w, q.wk) /\ WidthsMono(q.ok)
+       widths |-> SameSeq(q.o0.w, q.wk) /\ WidthsMono(q.ok) /\ WidthsMono(q.o0)
                   /\ (Len(q.ok.w) >= 1 => DLeq(q.wk[1], q.ok.w[1]) /\ DLeq(q.ok.w[Len(q.ok.w)], DMul(q.wk[Len(q.wk)], DL(10000001, -7)))),
-       wsum |-> rules0 # {},
+       wsum |-> (~q.useK) \/ rules0 # {},
        repro |-> DLeq(rss, RSSTol),
        rss |-> rss,
        order_invariant |-> SameSeq(q.o0.kl, q.ok.kl),
